@@ -259,7 +259,19 @@ func DecodeReply(status int, hdr http.Header, body []byte) *Reply {
 			raw, n := firstRaw(ps, "SAMLResponse")
 			if n > 0 {
 				r.Kind = RKRedirectSAML
+				// the target is the URL without the parameters the binding adds
+				var own []rawParam
+				for _, p := range ps {
+					switch p.Key {
+					case "SAMLResponse", "SAMLRequest", "RelayState", "Signature", "SigAlg", "SAMLEncoding":
+					default:
+						own = append(own, p)
+					}
+				}
 				r.Target = base
+				if len(own) > 0 {
+					r.Target += "?" + joinRaw(own)
+				}
 				r.NMessages = n
 				rs, nrs := firstRaw(ps, "RelayState")
 				r.NRelay = nrs
